@@ -2,7 +2,7 @@
 //! with the source picture; the encoder model is compared byte for byte under the observed strip order.
 use crate::util::*;
 use serde_json::{json, Value};
-use surf_n_term::{Color, Image, ImageHandler, Position, Shape, SixelImageHandler, Size, RGBA};
+use surf_n_term::{Color, Image, ImageHandler, Position, Shape, SixelImageHandler, Size, Surface, RGBA};
 
 type Rgb = [u8; 3];
 
@@ -48,25 +48,29 @@ pub fn run(input: &Value) -> Case {
     let imgs: Vec<Img> = input["imgs"].as_array().map(|a| a.iter().map(parse_img).collect()).unwrap_or_default();
     let draws: Vec<usize> = vusizes(&input["draws"]);
 
-    // Coq terms of the source images (the view the handler is given, sliced by the harness itself)
-    let mut coq_imgs = vec![];
-    let mut max_colors = 0usize;
-    let mut any_alpha = false;
-    let mut any_crop = false;
-    let mut heights = vec![];
-    let mut widths = vec![];
+    // parents: every distinct pixel buffer once (crops of one parent share it, as Image::crop does);
+    // the views are cut out of the parents by the Coq side (Corr/C12Corr.view_rows)
+    let mut parents: Vec<(usize, usize, Vec<[u8; 4]>)> = vec![];
+    let mut img_parent: Vec<usize> = vec![];
     for im in &imgs {
-        let (r0, r1, c0, c1) = im.crop.unwrap_or((0, im.h, 0, im.w));
-        any_crop |= im.crop.is_some();
+        let pos = parents.iter().position(|p| p.0 == im.w && p.1 == im.h && p.2 == im.data);
+        let idx = match pos {
+            Some(i) => i,
+            None => {
+                parents.push((im.w, im.h, im.data.clone()));
+                parents.len() - 1
+            }
+        };
+        img_parent.push(idx);
+    }
+    let mut coq_parents = vec![];
+    let mut any_alpha = false;
+    for (w, h, data) in &parents {
         let mut rows = vec![];
-        let mut distinct: Vec<[u8; 4]> = vec![];
-        for r in r0..r1.min(im.h) {
+        for r in 0..*h {
             let mut row = vec![];
-            for c in c0..c1.min(im.w) {
-                let p = im.data[r * im.w + c];
-                if !distinct.contains(&p) {
-                    distinct.push(p);
-                }
+            for c in 0..*w {
+                let p = data[r * w + c];
                 if p[3] == 255 {
                     row.push(format!("Opaque {}", crgb(&[p[0], p[1], p[2]])));
                 } else {
@@ -77,27 +81,70 @@ pub fn run(input: &Value) -> Case {
             }
             rows.push(clist(row));
         }
+        coq_parents.push(clist(rows));
+    }
+    let mut coq_imgs = vec![];
+    let mut max_colors = 0usize;
+    let mut any_crop = false;
+    let mut heights = vec![];
+    let mut widths = vec![];
+    for (k, im) in imgs.iter().enumerate() {
+        let (r0, r1, c0, c1) = im.crop.unwrap_or((0, im.h, 0, im.w));
+        any_crop |= im.crop.is_some();
+        let mut distinct: Vec<[u8; 4]> = vec![];
+        for r in r0..r1.min(im.h) {
+            for c in c0..c1.min(im.w) {
+                let p = im.data[r * im.w + c];
+                if !distinct.contains(&p) {
+                    distinct.push(p);
+                }
+            }
+        }
         heights.push(r1.min(im.h).saturating_sub(r0));
         widths.push(c1.min(im.w).saturating_sub(c0));
         max_colors = max_colors.max(distinct.len());
-        coq_imgs.push(clist(rows));
+        // the key the handler uses: Surface::hash of the view (height, width, every pixel of the view)
+        let key = {
+            let pixels: Vec<RGBA> = im.data.iter().map(|p| RGBA::new(p[0], p[1], p[2], p[3])).collect();
+            let parent = Image::from_parts(pixels.into(), Shape::from(Size::new(im.h, im.w)));
+            let view = match im.crop {
+                None => parent,
+                Some((r0, r1, c0, c1)) => parent.crop(r0..r1, c0..c1),
+            };
+            Surface::hash(&view)
+        };
+        coq_imgs.push(format!(
+            "({}%nat, {}, {})",
+            img_parent[k],
+            match im.crop {
+                None => "None".to_string(),
+                Some((r0, r1, c0, c1)) => format!("Some ({}%nat, {}%nat, {}%nat, {}%nat)", r0, r1, c0, c1),
+            },
+            key
+        ));
     }
+    let shared_parent = img_parent.len() > parents.len();
 
-    // the implementation: one handler, the draws in order
-    let imgs_for_run: Vec<(usize, usize, Vec<[u8; 4]>, Option<(usize, usize, usize, usize)>)> =
-        imgs.iter().map(|i| (i.w, i.h, i.data.clone(), i.crop)).collect();
+    // the implementation: one handler, one Image (one Arc'd buffer) per parent, crops taken from it
+    let crops: Vec<Option<(usize, usize, usize, usize)>> = imgs.iter().map(|i| i.crop).collect();
+    let parents_for_run = parents.clone();
+    let img_parent2 = img_parent.clone();
     let draws2 = draws.clone();
     let outs: Option<Vec<Vec<u8>>> = catch(move || {
         let mut handler = SixelImageHandler::new(bg_rgba);
+        let parent_imgs: Vec<Image> = parents_for_run
+            .iter()
+            .map(|(w, h, data)| {
+                let pixels: Vec<RGBA> = data.iter().map(|p| RGBA::new(p[0], p[1], p[2], p[3])).collect();
+                Image::from_parts(pixels.into(), Shape::from(Size::new(*h, *w)))
+            })
+            .collect();
         let mut outs = vec![];
         for d in draws2 {
-            let (w, h, data, crop) = &imgs_for_run[d];
-            let pixels: Vec<RGBA> = data.iter().map(|p| RGBA::new(p[0], p[1], p[2], p[3])).collect();
-            // a fresh Image object of the same content every time: the cache is keyed by content
-            let img = Image::from_parts(pixels.into(), Shape::from(Size::new(*h, *w)));
-            let img = match crop {
-                None => img,
-                Some((r0, r1, c0, c1)) => img.crop(*r0..*r1, *c0..*c1),
+            let parent = &parent_imgs[img_parent2[d]];
+            let img = match crops[d] {
+                None => parent.clone(),
+                Some((r0, r1, c0, c1)) => parent.crop(r0..r1, c0..c1),
             };
             let mut out: Vec<u8> = Vec::new();
             handler.draw(&mut out, &img, Position::origin()).expect("draw");
@@ -133,6 +180,7 @@ pub fn run(input: &Value) -> Case {
         format!("colors={}", match max_colors { 0..=1 => "1", 2..=16 => "2-16", 17..=256 => "17-256", _ => ">256" }),
         format!("alpha={}", any_alpha),
         format!("crop={}", any_crop),
+        format!("crops_of_shared_buffer={}", shared_parent),
         format!("repeated={}", repeated),
         format!("bg={}", bg.is_some()),
     ];
@@ -140,7 +188,10 @@ pub fn run(input: &Value) -> Case {
         tags.push(format!("height={}", hb(*h)));
     }
     Case {
-        coq: format!("SIX {} {}", clist(coq_imgs), coq_draws),
+        coq: format!("SIX {} {} {} {}", {
+            let b = bg.unwrap_or([0, 0, 0, 255]);
+            format!("({},{},{},{})", b[0], b[1], b[2], b[3])
+        }, clist(coq_parents), clist(coq_imgs), coq_draws),
         json: j,
         tags,
         nontrivial: max_colors >= 2 && heights.iter().any(|h| *h >= 6) && widths.iter().any(|w| *w >= 1),
@@ -259,18 +310,33 @@ fn gen_image(rng: &mut Rng, thorough: bool) -> Value {
 }
 
 fn gen_case(rng: &mut Rng, thorough: bool) -> Value {
-    let n = match rng.below(4) {
-        0 | 1 => 1,
-        2 => 2,
-        _ => 3,
+    let n = match rng.below(12) {
+        0..=5 => 1,
+        6 | 7 | 8 => 2,
+        9 | 10 => 3,
+        _ => 4 + rng.below(2) as usize,
     };
     let imgs: Vec<Value> = (0..n).map(|_| gen_image(rng, thorough)).collect();
+    // a draw sequence in which every image occurs, repeats are interleaved and some first draws
+    // come after cache hits
     let mut draws: Vec<usize> = (0..n).collect();
-    // repeated draws of the same content, interleaved
-    for _ in 0..rng.below(3) {
+    for _ in 0..rng.below(n as u64 + 3) {
         draws.push(rng.below(n as u64) as usize);
     }
-    let bg = if rng.chance(1, 2) { json!([rng.byte(), rng.byte(), rng.byte(), 255]) } else { Value::Null };
+    if rng.chance(1, 2) {
+        for i in (1..draws.len()).rev() {
+            let j = rng.below(i as u64 + 1) as usize;
+            draws.swap(i, j);
+        }
+    }
+    let bg = if rng.chance(1, 2) {
+        // mostly opaque backgrounds, some translucent ones (un-premultiplication in the compositing)
+        let rb = rng.byte();
+        let a = if rng.chance(1, 4) { *rng.pick(&[0u8, 1, 127, 254, rb]) } else { 255 };
+        json!([rng.byte(), rng.byte(), rng.byte(), a])
+    } else {
+        Value::Null
+    };
     json!({"bg": bg, "imgs": imgs, "draws": draws})
 }
 
@@ -329,8 +395,59 @@ fn gen_crop_siblings(rng: &mut Rng, thorough: bool) -> Value {
     json!({"bg": Value::Null, "imgs": imgs, "draws": draws})
 }
 
-/// exhaustive validation of the regenerated tables against the real code:
-/// scale(pre(x)) through one-colour opaque images, scale(y) through fully transparent images over bg
+/// an image large enough (>= 51200 pixels) for ColorPalette::from_image to sub-sample it inside draw;
+/// few colours in long horizontal runs (repeats in the hundreds), some single pixels
+fn gen_big(rng: &mut Rng) -> Value {
+    let w = 256 + rng.below(70) as usize;
+    let h = (51200 + w - 1) / w + 6 + rng.below(6) as usize; // (h / 6) * 6 * w >= 51200
+    let ncol = 3 + rng.below(4) as usize;
+    let pal = palette(rng, ncol);
+    let mut px: Vec<Rgb> = vec![pal[0]; w * h];
+    for r in 0..h {
+        let mut c = 0;
+        while c < w {
+            let run = match rng.below(4) {
+                0 => 1 + rng.below(4) as usize,
+                1 => 90 + rng.below(60) as usize,
+                2 => w,
+                _ => 5 + rng.below(40) as usize,
+            };
+            let col = if r % 6 != 0 && rng.chance(2, 3) { px[(r - 1) * w + c] } else { *rng.pick(&pal) };
+            for k in 0..run {
+                if c + k < w {
+                    px[r * w + c + k] = col;
+                }
+            }
+            c += run;
+        }
+    }
+    let data: Vec<Value> = px.iter().map(|p| json!([p[0], p[1], p[2], 255])).collect();
+    json!({"bg": Value::Null, "imgs": [{"w": w, "h": h, "data": data, "crop": Value::Null}], "draws": [0, 0]})
+}
+
+/// every pixel transparent, with many different colours and alphas, over an opaque or translucent
+/// background: exercises the bound of the compositing oracle against the exact linear-light mix
+fn gen_alpha_sweep(rng: &mut Rng) -> Value {
+    let w = 8 + rng.below(33) as usize;
+    let h = 6;
+    let e = [0u8, 1, 2, 10, 11, 12, 13, 127, 128, 200, 253, 254, 255];
+    let data: Vec<Value> = (0..w * h)
+        .map(|_| {
+            let c = |rng: &mut Rng| if rng.chance(1, 3) { *rng.pick(&e) } else { rng.byte() };
+            let a = if rng.chance(1, 3) { *rng.pick(&[0u8, 1, 2, 127, 128, 253, 254]) } else { rng.byte().min(254) };
+            json!([c(rng), c(rng), c(rng), a])
+        })
+        .collect();
+    let rb = rng.byte();
+    let ba = if rng.chance(1, 3) { *rng.pick(&[0u8, 1, 127, 254, rb]) } else { 255 };
+    let c = |rng: &mut Rng| if rng.chance(1, 3) { *rng.pick(&e) } else { rng.byte() };
+    let bg = if rng.chance(1, 5) { Value::Null } else { json!([c(rng), c(rng), c(rng), ba]) };
+    json!({"bg": bg, "imgs": [{"w": w, "h": h, "data": data, "crop": Value::Null}], "draws": [0]})
+}
+
+/// validation of the regenerated tables against the real code: scale(pre(x)) for all 256 values of every
+/// channel through one-colour opaque images; `scale` on values off the reduced grid is only observed
+/// through the averaged palette entries of images with more than 256 colours (random cases)
 fn table_cases() -> Vec<Value> {
     let mut v = vec![];
     for chunk in 0..8u32 {
@@ -343,7 +460,9 @@ fn table_cases() -> Vec<Value> {
         let draws: Vec<usize> = (0..32).collect();
         v.push(json!({"bg": Value::Null, "imgs": imgs, "draws": draws}));
     }
-    for y in 0..256u32 {
+    // fully transparent pixels over a background: the composited colour is the background itself
+    // (every 8th value; since the fix beaccdc this also goes through the reduction, like the family above)
+    for y in (0..256u32).step_by(8) {
         let y = y as u8;
         let img = json!({"w": 2, "h": 6, "data": vec![json!([10, 200, 77, 0]); 12], "crop": Value::Null});
         v.push(json!({"bg": [y, y.wrapping_add(85), y.wrapping_add(170), 255], "imgs": [img], "draws": [0, 0]}));
@@ -355,8 +474,14 @@ pub fn generate(rng: &mut Rng, n: usize, tier: &str) -> Vec<Value> {
     let thorough = tier == "thorough";
     let mut v = table_cases();
     for i in 0..n {
+        // one image above the sub-sampling threshold of from_image (51200 pixels) per 400 cases
+        if i % 400 == 40 {
+            v.push(gen_big(rng));
+            continue;
+        }
         v.push(match i % 26 {
             7 => gen_wide(rng),
+            11 | 20 => gen_alpha_sweep(rng),
             3 | 16 => gen_crop_siblings(rng, thorough),
             _ => gen_case(rng, thorough),
         });
